@@ -17,6 +17,7 @@ import (
 	"strconv"
 	"strings"
 	"sync"
+	"sync/atomic"
 	"time"
 
 	"github.com/gorilla/websocket"
@@ -82,6 +83,7 @@ type LogTap struct {
 	lines []string
 	cond  *sync.Cond
 	Keep  bool
+	delay atomic.Int64
 }
 
 // InstallLogTap redirects the standard logger into a new tap.
@@ -93,7 +95,15 @@ func InstallLogTap() *LogTap {
 	return t
 }
 
+// SetDelay makes every later log line take d: the goroutine that logs is
+// held inside log.Printf for that long, which widens every window of the
+// code under test that contains a log statement.
+func (t *LogTap) SetDelay(d time.Duration) { t.delay.Store(int64(d)) }
+
 func (t *LogTap) Write(p []byte) (int, error) {
+	if d := time.Duration(t.delay.Load()); d > 0 {
+		time.Sleep(d)
+	}
 	t.mu.Lock()
 	t.buf = append(t.buf, p...)
 	for {
